@@ -94,6 +94,8 @@ func c14EnvPB(env, mi int, src string) *parser.Builder {
 
 var c14EnvNames = []string{"fresh plain builder", "fresh builder with an unused language extension", "one plain builder for the whole run", "one extended builder for the whole run", "lexer builder shared with a sibling builder of the opposite modes that parsed the input first"}
 
+var c14MapPairs = []Cfg{{}, {Pretty: true, Indent: -2, Semi: -1}, {Pretty: true, Indent: 3, Semi: 0}, {Pretty: true, Indent: -1, Semi: 1}}
+
 var c14EnvCfgs = []Cfg{{}, {Map: true}, {Pretty: true, Indent: -2, Semi: -1, Map: true}, {Pretty: true, Indent: 3, Semi: 0}}
 
 func errsText(es []parser.ParserError) string {
@@ -127,6 +129,20 @@ func c14EnvCheck(src string, mi int) (kind, detail string, accepted bool, evals 
 	}
 	if base.Err != nil {
 		return "", "", false, evals
+	}
+	// requesting a source map does not change the generated code (every option set, with and without)
+	for _, cfg := range c14MapPairs {
+		plain := compileCfg(base.Prog, cfg)
+		withMap := cfg
+		withMap.Map = true
+		mapped := compileCfg(base.Prog, withMap)
+		evals += 2
+		if plain.Panic != "" || mapped.Panic != "" {
+			continue // C11's subject
+		}
+		if plain.Code != mapped.Code {
+			return "env-map-changes-code", fmt.Sprintf("%s: code without a source map %q, with WithSourceMap() %q", cfg, core.Short(plain.Code, 300), core.Short(mapped.Code, 300)), true, evals
+		}
 	}
 	for _, cfg := range c14EnvCfgs {
 		fresh := compileCfg(base.Prog, cfg)
@@ -231,6 +247,25 @@ func c14Env(c *core.Ctx) {
 			continue
 		}
 		run(sp.Src, 1000)
+	}
+	depth := 2
+	if c.Thorough() {
+		depth = 3
+	}
+	for d := 1; d <= depth; d++ {
+		gen.Chains(gen.Holes(c.Thorough() && d < 3), gen.Leaves(), d, true, func(e *gen.Node, name string) {
+			if !c.Next() || c.Tick() {
+				return
+			}
+			toks := gen.UnparseProgram([]*gen.Node{gen.Ex(e), gen.Let("x", gen.Clone(e))}, false)
+			run(gen.RenderDefault(toks), len(toks))
+		})
+	}
+	for pi, prog := range gen.XStatements(1) {
+		if !c.Mine(int64(pi)) || c.Tick() {
+			continue
+		}
+		run(gen.RenderDefault(gen.UnparseProgram(prog, false)), 60)
 	}
 	for ii, name := range gen.Identifiers() {
 		if !c.Mine(int64(ii)) || c.Tick() {
